@@ -830,7 +830,10 @@ pub struct WriteItem {
     pub data: Val,
 }
 
-pub fn enc_write_request(items: &[WriteItem], timed_flag: bool) -> Vec<u8> {
+/// One WriteRequestMessage. `more_chunks`: the MoreChunkedMessages field (context tag 3);
+/// `None` leaves the field out (single-message write), `Some(true)` announces further
+/// WriteRequest messages of the same write interaction on this exchange.
+pub fn enc_write_request(items: &[WriteItem], timed_flag: bool, more_chunks: Option<bool>) -> Vec<u8> {
     let arr = items
         .iter()
         .map(|w| {
@@ -843,13 +846,12 @@ pub fn enc_write_request(items: &[WriteItem], timed_flag: bool) -> Vec<u8> {
             Tlv::anon(Val::Struct(c))
         })
         .collect();
-    Tlv::anon(Val::Struct(vec![
-        Tlv::ctx(0, Val::Bool(false)),
-        Tlv::ctx(1, Val::Bool(timed_flag)),
-        Tlv::ctx(2, Val::Array(arr)),
-        Tlv::ctx(0xff, Val::U(13)),
-    ]))
-    .to_bytes()
+    let mut c = vec![Tlv::ctx(0, Val::Bool(false)), Tlv::ctx(1, Val::Bool(timed_flag)), Tlv::ctx(2, Val::Array(arr))];
+    if let Some(m) = more_chunks {
+        c.push(Tlv::ctx(3, Val::Bool(m)));
+    }
+    c.push(Tlv::ctx(0xff, Val::U(13)));
+    Tlv::anon(Val::Struct(c)).to_bytes()
 }
 
 #[derive(Clone, Debug)]
